@@ -2,6 +2,8 @@ import FpVerif.Properties.C02
 #print axioms Fp.C02.gen_ok
 #print axioms Fp.C02.gen_ok_helpers
 #print axioms Fp.C02.gen_ok_sigalg
+#print axioms Fp.C02.ja4_of_hello
+#print axioms Fp.C02.sampleHello_wf
 #print axioms Fp.C02.ja4String_congr
 #print axioms Fp.C02.perm_exts_pieces
 #print axioms Fp.C02.ja4_perm
